@@ -9,6 +9,7 @@ from __future__ import annotations
 
 import contextlib
 import importlib
+import json
 import io
 import logging
 import multiprocessing as mp
@@ -194,6 +195,15 @@ def run_many(jobs: list, projector_ref: str, procs: int = 16, keep_report: bool 
     """jobs: list of (tag, input text).  projector_ref: 'package.module:function' importable in the workers."""
     if not jobs:
         return []
+    rf = os.environ.get('VERIF_REPLAY_FILE')
+    if rf and len(jobs) == 1 and jobs[0][0] == 'replay':
+        # a replay of a run that was judged after its neighbours in one process: the same history again, the last member is the case
+        try:
+            hist = (json.loads(open(rf).read()).get('replay') or {}).get('history')
+        except Exception:  # noqa: BLE001
+            hist = None
+        if hist and isinstance(hist, list) and all(isinstance(h, list) and len(h) == 2 for h in hist):
+            return run_chains([[tuple(h) for h in hist] + [jobs[0]]], projector_ref, procs, keep_report)[-1:]
     args = [(text, projector_ref, tag) for tag, text in jobs]
     res = _robust_map(_job, args, procs)
     for k, r in enumerate(res):
@@ -218,6 +228,10 @@ def run_chains(chains: list, projector_ref: str, procs: int = 16, keep_report: b
     other.  Returns the flat list of results in chain order."""
     if not chains:
         return []
+    for c in chains:
+        for k, (tg, tx) in enumerate(c):
+            if k:
+                HISTORY[tx] = [list(x) for x in c[:k]]
     res = _robust_map(_job_chain, [(list(c), projector_ref) for c in chains], procs)
     flat = []
     for c, r in zip(chains, res):
@@ -230,6 +244,48 @@ def run_chains(chains: list, projector_ref: str, procs: int = 16, keep_report: b
             r.pop('report', None)
             r.pop('json_text', None)
     return flat
+
+
+HISTORY = {}       # input text -> the (tag, text) members that ran before it in its chain (parent process; read by Result.violation)
+
+STRUCTURAL = ('Reservoir Model', 'End-Use Option', 'Power Plant Type', 'Economic Model', 'Number of Segments', 'Well Drilling Cost Correlation',
+              'Injection Well Drilling Cost Correlation', 'Reservoir Volume Option', 'Fracture Shape', 'Print Output to Console', 'Time steps per year',
+              'Construction Years', 'Do ', 'Is ', 'AddOn', 'District Heating Demand', 'Wellbore', 'Plant Outlet Pressure', 'Production Wellhead Pressure',
+              'Number of Multilateral', 'Well Geometry', 'Cylindrical', 'SBT', 'Total Nonvertical Length', 'Units:')
+
+
+def neighbour_chains(jobs: list, nbases: int, k: int, seed_: int, prefer: tuple = ()) -> list:
+    """For a seeded choice of `nbases` of the jobs (tag, text): a chain [the job, k neighbours], each neighbour being the job's text with
+    ONE figure it states itself restated 10 % lower or higher (a later line governs).  `prefer`: names varied first when stated."""
+    import random
+    rng = random.Random(seed_)
+    pool = [j for j in jobs if '\n' in j[1]]
+    chains = []
+    for tag, text in rng.sample(pool, min(nbases, len(pool))):
+        stated = []
+        for ln in text.splitlines():
+            parts = [x.strip() for x in ln.split(',')]
+            if len(parts) < 2 or not parts[0] or parts[0].startswith(('#', '-', '*')) or any(parts[0].startswith(x) for x in STRUCTURAL):
+                continue
+            try:
+                x = float(parts[1])
+            except ValueError:
+                continue
+            if x != 0 and x != -1 and parts[0] not in [n for n, _ in stated]:
+                stated.append((parts[0], x))
+        first = [nv for nv in stated if nv[0] in prefer]
+        rest = [nv for nv in stated if nv[0] not in prefer]
+        rng.shuffle(first)
+        rng.shuffle(rest)
+        chain = [(f'chain:{tag}', text)]
+        for name, x in (first + rest)[:k]:
+            new = repr(x * rng.choice([0.9, 1.1])) if not float(x).is_integer() or abs(x) > 50 else repr(x * rng.choice([0.9, 1.1]))
+            if name in ('Plant Lifetime',) or name.startswith('Number of'):
+                new = str(int(x) + 1)
+            chain.append((f'chain:{tag}~{name}', text.rstrip('\n') + f'\n{name}, {new}\n'))
+        if len(chain) > 1:
+            chains.append(chain)
+    return chains
 
 
 def call_in_pool(fn_ref: str, items: list, procs: int = 16, fresh: bool = False) -> list:
